@@ -54,7 +54,7 @@ THEOREMS = [
     "Exit.C07_kill_outcome_by_receiver", "Exit.C07_kill_whichever_logged_thread", "Exit.C07_kill_never_logged_thread",
     "Exit.C07_kill_candidates",
     # candidate repair of F27
-    "Exit.C07_stop_model_waits_for_ever", "Exit.C07_F27_repair_never_hangs", "Obligations.exit_flush_waits_for_ever",
+    "Exit.C07_stop_model_waits_for_ever", "Exit.C07_F27_repair_never_hangs", "Obligations.C07_signal_during_stop_extracted_flush",
 ]
 MODULES = ["QuillModel.Props.C07"]
 OBLIG = ["QuillModel.Obligations.Exit"]
